@@ -328,6 +328,14 @@ Definition reflect_seal (SO : stf_oracle) (pre post : wstate) (a : option action
   ++ flag 15 (pool_flows false pre post) 3
   ++ flag 15 (pool_flows true pre post) 5
   ++ flag 15 (swaps_fair pre post) 4
+  (* C15: a deposit whose second output is gone before sealing (spent inside the block) is not a genuine request:
+     its first output stays exactly as declared *)
+  ++ flag 15 (forallb (fun t =>
+        negb (txkind_eqb (t_kind t) KLiqDeposit) ||
+        match s_coins pre !! coin_key (t_hash t) 0, s_coins pre !! coin_key (t_hash t) 1 with
+        | Some c, None => match s_coins post !! coin_key (t_hash t) 0 with Some c' => cdh_eqb c c' | None => false end
+        | _, _ => true
+        end) (map snd (map_to_list (s_txs pre)))) 6
   (* C16 *)
   ++ flag 16 (forallb (fun k => match s_pools post !! poolkey_code k with
                                 | Some p => (0 <? p_lefts p) && (0 <? p_rights p) | None => false end)
